@@ -64,7 +64,8 @@ package utils
 
 //@ func UInt32ToBytes
 //@   props C12
-//@   ensures result === seq(value / 16777216, (value / 65536) % 256, (value / 256) % 256, value % 256) && fresh(result)
+//@   ensures result === seq(value / 16777216, (value / 65536) % 256, (value / 256) % 256, value % 256)
+//@   ensures fresh(result)
 //@   assigns nothing
 //@   safety all
 
